@@ -66,6 +66,7 @@ class C12(Check):
             for dt in ('uint8', 'int16', 'bool', 'float32', 'int64'):
                 for N in ((5, 9) if tier == 'quick' else (3, 5, 7, 9, 12)):
                     js.append(dict(kind='typed', N=N, mode=mode, dtype=dt))
+        js.sort(key=lambda j: 0 if (j['kind'] == 'typed' or 'fixed' in j or j.get('again')) else (2 if j.get('N') == 6 else 1))      # probes first, the N = 6 enumeration (runs into the budget) last
         return js
 
     def patches(self, job):
